@@ -310,21 +310,21 @@ def run(ck: Check):
             run_.pair(obj["relation"], obj["a"], obj["b"], "corpus", (f.name,), factor=obj.get("factor", 1.0))
         # exhaustive: every permutation / swap subset / rooting for small trees
         for n in ([3, 4, 5] if thorough else [3, 4]):
-            for rep in range(6 if n == 3 else (4 if n == 4 else 2)):
+            for rep in range((12 if n == 3 else (8 if n == 4 else 4)) if thorough else (8 if n == 3 else 6)):
                 tree, names, seqs, base = gen_base(rng, n, reversible=(rep % 2 == 0), rooting="unrooted" if rep % 2 == 0 else None)
                 variants(run_, rng, tree, names, seqs, base, f"exhaustive/{n}", exhaustive=True)
         # amino-acid / codon alphabets
-        for subst in (["LG", "WAG", "MG94"] if thorough else [rng.choice(["LG", "WAG"]), "MG94"]):
+        for subst in (["LG", "WAG", "MG94"] * 3 if thorough else ["LG", "WAG", "MG94"]):
             tree, names, seqs, base = gen_base(rng, 3 if subst == "MG94" else 4, subst=subst)
             variants(run_, rng, tree, names, seqs, base, "alphabets", exhaustive=False)
         # random beyond
-        for _ in range(40 if thorough else 12):
+        for _ in range(200 if thorough else 30):
             n = rng.choice([5, 6, 7, 8, 10, 14]) if thorough else rng.choice([5, 6, 7, 8])
             tree, names, seqs, base = gen_base(rng, n)
             variants(run_, rng, tree, names, seqs, base, "random", exhaustive=False)
         # all rootings of larger unrooted trees, reversible
-        for _ in range(10 if thorough else 3):
-            n = rng.choice([6, 7, 8, 12])
+        for _ in range(40 if thorough else 8):
+            n = rng.choice([6, 7, 8, 12, 20]) if thorough else rng.choice([6, 7, 8, 12])
             tree, names, seqs, base = gen_base(rng, n, reversible=True, rooting="unrooted")
             variants(run_, rng, tree, names, seqs, base, "rootings", exhaustive=False)
     finally:
